@@ -129,6 +129,65 @@ static void case_agree(const Spec3& spec) {
   sx::reached("net3d-agree");
 }
 
+
+// C13 (description part): the file written by export_xml describes the same survey -- observation types, end points, values, standard
+// deviations and instrument / target heights (from_dh, to_dh, bs_dh, fs_dh), the heights being symbols of any sign, zero included;
+// points with status and coordinates, parameters.  No adjustment is involved (export_xml does not need one).
+static int okind(Observation* o) { if (dynamic_cast<Direction*>(o)) return 0; if (dynamic_cast<S_Distance*>(o)) return 1; if (dynamic_cast<Z_Angle*>(o)) return 2; if (dynamic_cast<Distance*>(o)) return 3;
+  if (dynamic_cast<Angle*>(o)) return 4; if (dynamic_cast<H_Diff*>(o)) return 5; if (dynamic_cast<Azimuth*>(o)) return 6; return 9; }
+static void case_export_description(bool obs_level_ih) {
+  std::ostringstream o;
+  o << "<?xml version=\"1.0\" ?>\n<gama-local xmlns=\"http://www.gnu.org/software/gama/gama-local\">\n<network>\n<description>export of instrument and target heights</description>\n"
+    << "<parameters sigma-apr=\"10\" conf-pr=\"0.95\" tol-abs=\"1000\" sigma-act=\"apriori\" />\n<points-observations>\n"
+    << "<point id=\"S\" x=\"1000\" y=\"2000\" z=\"300\" fix=\"xyz\" />\n<point id=\"T1\" x=\"1090\" y=\"2120\" z=\"500\" adj=\"xyz\" />\n<point id=\"T2\" x=\"1120\" y=\"1840\" z=\"450\" adj=\"xyZ\" />\n<point id=\"T4\" x=\"880\" y=\"1910\" z=\"500\" fix=\"xy\" adj=\"z\" />\n"
+    << "<obs from=\"S\"" << (obs_level_ih ? " from_dh=\"1.5\"" : "") << ">\n"
+    << "<direction to=\"T1\" val=\"10\" stdev=\"10\" />\n<direction to=\"T2\" val=\"120\" stdev=\"11\" />\n"
+    << "<s-distance to=\"T1\" val=\"250\" stdev=\"5\" to_dh=\"1.1\" />\n<z-angle to=\"T1\" val=\"40\" stdev=\"12\" to_dh=\"1.1\" />\n"
+    << "<s-distance to=\"T2\" val=\"260\" stdev=\"6\" from_dh=\"1.6\" to_dh=\"1.2\" />\n<z-angle to=\"T2\" val=\"60\" stdev=\"13\" from_dh=\"1.6\" to_dh=\"1.2\" />\n"
+    << "<distance to=\"T2\" val=\"200\" stdev=\"7\" />\n"
+    << "<angle bs=\"T1\" fs=\"T2\" val=\"110\" stdev=\"14\" from_dh=\"1.5\" bs_dh=\"1.1\" fs_dh=\"1.2\" />\n"
+    << "<azimuth to=\"T4\" val=\"250\" stdev=\"15\" />\n</obs>\n"
+    << "<height-differences>\n<dh from=\"T1\" to=\"T2\" val=\"-50\" stdev=\"3\" />\n<dh from=\"T2\" to=\"T4\" val=\"50\" dist=\"0.8\" />\n</height-differences>\n"
+    << "</points-observations>\n</network>\n</gama-local>\n";
+  Net a; if (!a.parse(o.str())) { sx::fail("generated input rejected by the parser", a.parse_error + " line " + std::to_string(a.parse_line)); return; }
+  std::vector<Observation*> oa = a.all_obs(); sx::check_true(oa.size() == 11, "the parser produced the 11 observations", std::to_string(oa.size())); if (oa.size() != 11) return;
+  // symbolic heights: the instrument, the two targets, a second instrument height; symbolic values
+  Real h1 = sx::input("ih"), h2 = sx::input("th1"), h3 = sx::input("th2"), h4 = sx::input("ih2"); for (Real h : {h1, h2, h3, h4}) sx::assume_range(h, Q(-3), Q(3));
+  for (size_t k = 0; k < oa.size(); k++) { Observation* ob = oa[k]; int kd = okind(ob); Real v = sx::input("v" + std::to_string(k + 1));
+    if (kd == 0 || kd == 4 || kd == 6) sx::assume_range(v, Q(1, 100), Q(628, 100)); else if (kd == 2) sx::assume_range(v, Q(1, 100), Q(314, 100)); else if (kd == 5) sx::assume_range(v, Q(-500), Q(500)); else sx::assume_range(v, Q(1), Q(5000));
+    ob->set_value(v);
+    bool t2 = ob->to().str() == "T2";
+    if (kd == 1 || kd == 2) { ob->set_from_dh(t2 ? h4 : h1); ob->set_to_dh(t2 ? h3 : h2); }
+    else if (kd == 4) { Angle* an = static_cast<Angle*>(ob); an->set_from_dh(h1); an->set_bs_dh(h2); an->set_fs_dh(h3); }
+    else if (kd == 0 || kd == 3 || kd == 6) { if (obs_level_ih) ob->set_from_dh(h1); } }
+  LocalNetwork* A = a.IS.get(); std::vector<Observation*> prev = oa;
+  std::vector<std::unique_ptr<Net>> keep;
+  for (int round = 1; round <= 2; round++) { std::string t = "export round " + std::to_string(round);
+    std::string xml = A->export_xml();
+    if (const char* d = getenv("SX_DUMP_GKF")) { static int n = 0; std::ofstream f(std::string(d) + ".export" + std::to_string(++n) + ".gkf"); f << xml; }
+    keep.emplace_back(new Net); Net& b = *keep.back();
+    if (!b.parse(xml)) { sx::fail(t + ": exported file is rejected by the parser", b.parse_error + " line " + std::to_string(b.parse_line)); return; }
+    std::vector<Observation*> ob = b.all_obs(); sx::check_true(ob.size() == prev.size(), t + ": same number of observations", std::to_string(ob.size())); if (ob.size() != prev.size()) return;
+    for (size_t k = 0; k < ob.size(); k++) { Observation* p = prev[k]; Observation* q = ob[k]; std::string l = t + ": observation " + std::to_string(k + 1) + " "; int kd = okind(p);
+      sx::check_true(okind(q) == kd && q->from().str() == p->from().str() && q->to().str() == p->to().str(), l + "has the same type and end points", "");
+      if (okind(q) != kd) return;
+      // angular values pass through gon in the text: two rounded constants whose product differs from 1 by about 1e-16
+      if (kd == 0 || kd == 2 || kd == 4 || kd == 6) near0(q->value() - p->value(), mpq_class(1, 1000000000000L), l + "value"); else sx::check_eq(q->value(), p->value(), l + "value");
+      sx::check_eq(q->stdDev(), p->stdDev(), l + "standard deviation");
+      sx::check_eq(q->from_dh(), p->from_dh(), l + "from_dh");
+      sx::check_eq(q->to_dh(), p->to_dh(), l + (kd == 4 ? "bs_dh" : "to_dh"));
+      if (kd == 4) { Angle* pa = static_cast<Angle*>(p); Angle* qa = static_cast<Angle*>(q); sx::check_true(qa->fs().str() == pa->fs().str(), l + "fs", ""); sx::check_eq(qa->fs_dh(), pa->fs_dh(), l + "fs_dh"); }
+      if (kd == 5) sx::check_eq(static_cast<H_Diff*>(q)->dist(), static_cast<H_Diff*>(p)->dist(), l + "dist"); }
+    LocalNetwork* B = b.IS.get();
+    for (auto it = A->PD.begin(); it != A->PD.end(); ++it) { const LocalPoint& p = it->second; const LocalPoint& q = B->PD[it->first]; std::string l = t + ": point " + it->first.str() + " ";
+      sx::check_true(p.fixed_xy() == q.fixed_xy() && p.free_xy() == q.free_xy() && p.constrained_xy() == q.constrained_xy() && p.fixed_z() == q.fixed_z() && p.free_z() == q.free_z() && p.constrained_z() == q.constrained_z(), l + "status", "");
+      sx::check_true(p.test_xy() == q.test_xy() && p.test_z() == q.test_z(), l + "coordinates present", "");
+      if (p.test_xy() && q.test_xy()) { sx::check_eq(p.x(), q.x(), l + "x"); sx::check_eq(p.y(), q.y(), l + "y"); } if (p.test_z() && q.test_z()) sx::check_eq(p.z(), q.z(), l + "z"); }
+    sx::check_eq(A->apriori_m_0(), B->apriori_m_0(), t + ": sigma-apr"); sx::check_eq(A->tol_abs(), B->tol_abs(), t + ": tol-abs"); sx::check_eq(A->conf_pr(), B->conf_pr(), t + ": conf-pr"); sx::check_true(A->m_0_apriori() == B->m_0_apriori(), t + ": sigma-act", "");
+    A = B; prev = ob; }
+  sx::reached("net3d-export");
+}
+
 static Spec3 polar(const std::string& name, bool heights, bool second_station, bool second_without_ih = false) {
   Spec3 s; s.name = name; Q X0 = 1000, Y0 = 2000, Z0 = 300;
   s.pts.push_back({"S", X0, Y0, Z0, "fix=\"xyz\"", true});
@@ -152,6 +211,7 @@ static void gen_cases(const sx::Options& opt, std::vector<sx::Case>& cases) {
   //  0.1-0.2 m off and gama-local needs several re-linearisations, which the exact engine cannot follow)
   if (on("C06")) { int k = 0; for (auto& s : specs) for (int omit = 0; omit < 2; omit++) { if (omit && s.name != "polar-plain") continue; int alg = (k++) % 3; auto sp = std::make_shared<Spec3>(s);
       add("net3d/consistent/" + s.name + "/" + ALGS[alg] + (omit ? "/acord" : "/given"), "spatial networks", [sp, alg, omit] { case_consistent(*sp, alg, omit != 0); }); } }
+  if (on("C13")) for (int v = 0; v < 2; v++) add(std::string("net3d/export-description/") + (v ? "station-height" : "sight-heights"), "spatial networks", [v] { case_export_description(v != 0); });
   if (on("C01") || on("C02")) for (auto& s : specs) { if (!th && s.name == "polar-plain") continue; auto sp = std::make_shared<Spec3>(s); add("net3d/agree/" + s.name, "spatial networks", [sp] { case_agree(*sp); }); }
 }
 int main(int argc, char** argv) { GNU_gama::local::set_gama_language(GNU_gama::local::en); return sx::run_main(argc, argv, "net3d", gen_cases); }
